@@ -123,4 +123,19 @@ Section RescaleHeap.
     destruct (step ltb2 (f top) (map_heap f h) (map_op f o)) as [h2 r2]. cbn [fst snd] in E, Hb.
     now subst.
   Qed.
+  (* whole histories *)
+  Theorem rescale_run_on (top : W1) (ops : list (@op W1)) : forall (h : heap W1),
+    P top -> Forall P (hcost h) -> Forall (fun o => Forall P (op_costs o)) ops ->
+    Forall P (hcost (fst (run ltb1 top h ops))) /\
+    run ltb2 (f top) (map_heap f h) (map (map_op f) ops)
+    = (map_heap f (fst (run ltb1 top h ops)), snd (run ltb1 top h ops)).
+  Proof.
+    induction ops as [|o os IH]; intros h Htop Hh Hops; cbn [run map].
+    - split; [exact Hh | reflexivity].
+    - destruct (rescale_step_on top h o Htop Hh (Forall_inv Hops)) as [Hh1 E1].
+      rewrite E1. destruct (step ltb1 top h o) as [h1 r1]. cbn [fst snd] in *.
+      destruct (IH h1 Htop Hh1 (Forall_inv_tail Hops)) as [Hh2 E2].
+      rewrite E2. destruct (run ltb1 top h1 os) as [h2 rs]. cbn [fst snd] in *.
+      split; [exact Hh2 | reflexivity].
+  Qed.
 End RescaleHeap.
